@@ -128,7 +128,8 @@ int main(int argc, char** argv) {
         for (auto& kv : rows) {
           std::string rs = "P " + rowStr(kv.first, kv.second);
           if (!allowed.count(rs)) V("I3: a stored (key, value, dependency list) matches neither the pre-build record nor any execution of the interrupted build (torn or invented result)", rowStr(kv.first, kv.second));
-          if (kv.second.builtAt < kv.second.computedAt) V("I1: built_at < computed_at", rowStr(kv.first, kv.second));
+          if (kv.second.builtAt != 0 && kv.second.builtAt < kv.second.computedAt) V("I1: built_at < computed_at", rowStr(kv.first, kv.second));
+          if (ep < kv.second.computedAt) V("I1: stored epoch is smaller than a stored result's computed_at", rowStr(kv.first, kv.second) + " epoch=" + std::to_string(ep));
           if (ep < kv.second.builtAt) V("I1: stored epoch is smaller than a stored result's built_at", rowStr(kv.first, kv.second) + " epoch=" + std::to_string(ep));
           (void)fromLog;
         }
